@@ -102,7 +102,7 @@ type c17Case struct {
 }
 
 const c17Rule = "case = 1..8 settings from the 45-entry table (yaml key, flag name, VFLOW_* variable, kind, default; transcribed from docs/config.md and NewOptions), each given by a random non-empty subset of " +
-	"{environment, configuration file (-config <file>, placed before, between or after the other flags; the path plain, a symbolic link to the file, through a linked directory, or with . and .. components), command line} with distinct valid values (ports/sizes/worker counts in range, booleans, strings incl. ones needing YAML quoting; a source may also pin the built-in default value), optionally -sflow-type-filter a,b,c; " +
+	"{environment, configuration file (-config <file>, placed before, between or after the other flags; the path plain, a symbolic link to the file, through a linked directory, with . and .. components, or relative to the working directory as a bare file name or ./name), command line} with distinct valid values (ports/sizes/worker counts in range, booleans, strings incl. ones needing YAML quoting; a source may also pin the built-in default value), optionally -sflow-type-filter a,b,c; " +
 	"executed by the real option loading (environment, YAML file, flags) in the package-main driver; oracle = effective value is the command line's, else the file's, else the environment's, else the default; untouched settings keep their defaults; " +
 	"the filter option parses to [a,b,c]; non-trivial = some setting has >= 2 sources; distinct by hash"
 
@@ -114,7 +114,7 @@ func genC17(t *rapid.T) c17Case {
 	var c c17Case
 	c.EqForm = rapid.Bool().Draw(t, "eqform")
 	c.ConfigPos = rapid.SampledFrom([]int{0, 0, 1, 2, 99}).Draw(t, "configpos")
-	c.ConfigVia = rapid.SampledFrom([]string{"", "", "", "symlink", "symlink", "dirlink", "unclean"}).Draw(t, "configvia")
+	c.ConfigVia = rapid.SampledFrom([]string{"", "", "", "symlink", "symlink", "dirlink", "unclean", "bare", "bare", "relative"}).Draw(t, "configvia")
 	n := rapid.IntRange(1, 8).Draw(t, "nkeys")
 	perm := rapid.Permutation(intRange(len(c17Table))).Draw(t, "keys")
 	for _, idx := range perm[:n] {
@@ -295,7 +295,7 @@ func runC17(c *c17Case) (v verdict, sig string, err error) {
 		text := strings.Join(cfg, "\n") + "\n"
 		req.Config = &text
 		switch c.ConfigVia {
-		case "", "symlink", "dirlink", "unclean":
+		case "", "symlink", "dirlink", "unclean", "bare", "relative":
 			req.ConfigVia = c.ConfigVia
 			v.label(c.ConfigVia != "", "config-file-reached-through-"+c.ConfigVia)
 		default:
